@@ -13,6 +13,9 @@ RULE = {
            "random / PCT / sticky walk over single shared accesses; a run is non-trivial when at least one context switch "
            "happens while the pre-empted thread is inside a Signal method; distinct = distinct (scenario shape, schedule) hash",
 }
+RULE["C01"] += ("; callbacks are removed by an equal, not identical callable every other time; plus monitor-only jobs: HOSTILE programs "
+                "(callbacks that raise, handlers that raise again, callbacks calling then/go/bool/remove_then on their own signal, "
+                "wait(till=x) for x a signal / False / None / Null) and LINE MODE (every line of the library's functions a pre-emption point)")
 RULE["C02"] = RULE["C01"] + "; C02 profile biases towards then/remove_then and raising callbacks"
 
 
